@@ -147,8 +147,20 @@ def id_supply_probe(ctx):
         _random.seed()
 
 
+NEAR = 1 << 130      # ids >= NEAR are NEAR-MISSES of a real id: the same text padded with white space or in upper case
+
+
 def sid_str(k):
+    if k >= NEAR:
+        j, v = divmod(k - NEAR, 4)
+        base = f"{j:032x}"
+        return [" " + base, base + "\n", base.upper() if base.upper() != base else base + " ", "\t" + base + "\t"][v]
     return f"{k:032x}"
+
+
+def mk(k):
+    """the model's view of an id: a near-miss is simply an id nobody was given"""
+    return UNKNOWN if k >= NEAR else k
 
 
 # tokens for client info / metadata values
@@ -227,7 +239,7 @@ def enc_vreq(v):
 
 
 def enc_sess(s):
-    return "()" if (s is None or s == "") else f"({s})"
+    return "()" if (s is None or s == "") else f"({mk(s)})"
 
 
 def enc_op(op):
@@ -235,11 +247,11 @@ def enc_op(op):
     if t == "create":
         return f"(0 {tok(op[1])} {sx(op[2])} {tok(op[3] or {})})"
     if t == "get":
-        return f"(1 {op[1]})"
+        return f"(1 {mk(op[1])})"
     if t == "touch":
-        return f"(2 {op[1]})"
+        return f"(2 {mk(op[1])})"
     if t == "delete":
-        return f"(3 {op[1]})"
+        return f"(3 {mk(op[1])})"
     if t == "cleanup":
         return f"(4 {op[1]})"
     if t == "list":
@@ -387,7 +399,8 @@ def run_history(hist, scale=1):
 # --------------------------------------------------------------------------- #
 # Histories
 # --------------------------------------------------------------------------- #
-READ_TAIL = [("list",), ("count",), ("get", 0), ("get", 1), ("get", 2), ("get", UNKNOWN)]
+READ_TAIL = [("list",), ("count",), ("get", 0), ("get", 1), ("get", 2), ("get", UNKNOWN), ("get", NEAR + 0), ("get", NEAR + 1 * 4 + 1),
+             ("touch", NEAR + 0 * 4 + 3), ("delete", NEAR + 1 * 4 + 0), ("get", 0), ("get", 1)]
 DT = 10
 
 
@@ -452,7 +465,10 @@ def seeded(ctx, count, maxlen):
                 r = rng.random()
                 if r < 0.12:
                     return UNKNOWN
-                if r < 0.2:
+                if r < 0.24 and created:
+                    # an id that differs from a real one only in surrounding white space or letter case: another id
+                    return NEAR + rng.randrange(created) * 4 + rng.randrange(4)
+                if r < 0.3:
                     return created + rng.randrange(0, 3)      # not created yet (may be created later)
                 return rng.randrange(0, max(created, 1))
 
